@@ -272,31 +272,51 @@ def run_translators(ctx):
 
 
 def coq_build(ctx, props):
-    """full .vo build (make -k -j16); returns dict with per-props-file status"""
-    with Lock('coq'):
-        terr = run_translators(ctx)
-        sh(['sh', 'mkproject.sh'], cwd=COQ, check=True)
-        rc, out = sh('make -k -j16', cwd=COQ, timeout=3000)
-        open(os.path.join(ctx.dir, 'make.log'), 'w').write(out)
-        status = {}
-        for pf in props:
-            vo = pf[:-2] + '.vo'
-            q, _ = sh(['make', '-q', vo], cwd=COQ)
-            compiled = (q == 0) and os.path.exists(os.path.join(COQ, vo))
-            assum = ''
-            if compiled:
-                # re-run the property file alone to capture the Print Assumptions output
+    """full .vo build of the dependency closure of the property's theorem files; returns per-file status.
+    The lock is only taken when something actually has to be (re)compiled."""
+    targets = ' '.join(pf[:-2] + '.vo' for pf in props)
+    lock = Lock('coq')
+    lock.__enter__()   # one lock across translators + make + status: coq/gen is shared between concurrent checks
+    try:
+        return _coq_build_locked(ctx, props, targets)
+    finally:
+        lock.__exit__()
+
+
+def _coq_build_locked(ctx, props, targets):
+    terr = run_translators(ctx)
+    sh(['sh', 'mkproject.sh'], cwd=COQ, check=True)
+    q, _ = sh('make -q ' + targets, cwd=COQ)
+    rc, out = 0, ''
+    if q != 0:
+        rc, out = sh("make -k -j16 COQC='timeout 1500 coqc' " + targets, cwd=COQ, timeout=3000)
+    open(os.path.join(ctx.dir, 'make.log'), 'w').write(out)
+    status = {}
+    for pf in props:
+        vo = pf[:-2] + '.vo'
+        q, _ = sh(['make', '-q', vo], cwd=COQ)
+        compiled = (q == 0) and os.path.exists(os.path.join(COQ, vo))
+        assum = ''
+        if compiled:
+            # re-run the property file alone to capture the Print Assumptions output (cached per compiled .vo)
+            cdir = os.path.join(BUILD, 'assum')
+            os.makedirs(cdir, exist_ok=True)
+            cache = os.path.join(cdir, pf.replace('/', '_') + '.txt')
+            vo_m = os.path.getmtime(os.path.join(COQ, vo))
+            if os.path.exists(cache) and os.path.getmtime(cache) >= vo_m:
+                assum = open(cache).read()
+            else:
                 tmpvo = os.path.join(ctx.dir, os.path.basename(vo))
-                r2, o2 = sh(['coqc', '-Q', '.', 'IT', '-o', tmpvo, pf], cwd=COQ, timeout=900)
+                r2, o2 = sh(['coqc', '-Q', '.', 'IT', '-o', tmpvo, pf], cwd=COQ, timeout=1500)
                 if r2 != 0:
                     compiled = False
-                    assum = o2
                 else:
-                    assum = o2
-            status[pf] = {'compiled': compiled, 'assumptions': assum}
-        errs = re.findall(r'File "\./([^"]+)", line (\d+), characters [^\n]*\n((?:.*\n){0,12}?)(?=make|File|COQC|$)', out)
-        failing = ['%s:%s %s' % (f, l, ' '.join(msg.split())[:300]) for (f, l, msg) in errs]
-        return {'make_rc': rc, 'status': status, 'failing': failing, 'translator_error': terr}
+                    open(cache, 'w').write(o2)
+                assum = o2
+        status[pf] = {'compiled': compiled, 'assumptions': assum}
+    errs = re.findall(r'File "\./([^"]+)", line (\d+), characters [^\n]*\n((?:.*\n){0,12}?)(?=make|File|COQC|$)', out)
+    failing = ['%s:%s %s' % (f, l, ' '.join(msg.split())[:300]) for (f, l, msg) in errs]
+    return {'make_rc': rc, 'status': status, 'failing': failing, 'translator_error': terr}
 
 
 def theorems_of(pf):
@@ -522,7 +542,7 @@ def main():
         'property_id': pid, 'tier': tier, 'seed': seed, 'level': 'proof',
         'coverage': {
             'obligations': len(obligations), 'discharged': len(discharged),
-            'checker_cmd': 'cd /verif/coq && sh mkproject.sh && make -k -j16 && coqc -Q . IT ' + ' '.join(props),
+            'checker_cmd': 'cd /verif/coq && sh mkproject.sh && make -k -j16 ' + ' '.join(pf[:-2] + '.vo' for pf in props) + ' && coqc -Q . IT ' + ' '.join(props),
             'trusted_base': TRUSTED_BASE + getattr(plugin, 'TRUSTED', []),
             'theorems': obligations,
             'print_assumptions': assum_txt,
